@@ -715,7 +715,10 @@ def _check(case, ctx):
     # before stepping; the iteration steps TimePoint objects.  Where the two
     # differ every walk-based answer derives from a point off the iteration.
     fwd_leaves = bwd_leaves = False
-    if nominal_dur:       # (an exact step is representation-independent)
+    # (also for exact steps: the library's arithmetic on ordinal / week
+    # dates is itself representation-dependent across a leap-year end, see
+    # the C18 ordinal-date finding)
+    if dur is not None:
         for i, tp in enumerate(U):
             rp = point_parse(str(tp))
             if i + 1 < len(U) and key(rp + dur) != uk[i + 1]:
